@@ -188,6 +188,10 @@ func ParseFile(filename, pkg, src string) (*File, error) {
 			}
 			if kw == "pure" {
 				ct.Pure = true
+				ct.NoBody = true
+				if pkg == "" {
+					ct.Trusted = true
+				}
 				t = strings.TrimSpace(strings.TrimPrefix(t, "func"))
 			}
 			ct.Target = t
